@@ -85,6 +85,18 @@ def render_fragment(unit, docs, types):
         if j0 is None:
             raise ExtractionBreak('fragment %s: no later sibling %s mentioning %s' % (unit['name'], unit['through_kind'], tm))
         span = sib[i0:j0 + 1]
+    if unit.get('select_from_block_start'):
+        # the run of statements from the START of the enclosing block through the selected statement: whatever the block does to
+        # set up the selected statement's state (declarations, clear() calls) is part of the fragment, however it is written
+        parent = None
+        for n in walk(body):
+            if n.get('kind') == 'CompoundStmt' and any(c is sel for c in n.get('inner', []) or []):
+                parent = n
+        if parent is None:
+            raise ExtractionBreak('fragment %s: selected statement is not a direct child of a block' % unit['name'])
+        sib = parent['inner']
+        i0 = [k for k, c in enumerate(sib) if c is sel][0]
+        span = sib[0:i0 + 1]
     p = Printer(types, unit)
     p.fragment = True
     # locals declared inside the fragment are local; everything else referenced is free
